@@ -162,8 +162,9 @@ def lookupIn : List Frame → Bytes → Option Bytes
 /-- `none` is the "" the Go code returns for an unbound name -/
 def lookup (s : Scope) (k : Bytes) : Option Bytes := lookupIn s.stack k
 
-def kLimit : Bytes := b!"__limit"
-def kIndex : Bytes := b!"__index"
+/-- loopLimitKey / loopIndexKey ("$" cannot occur in a Soy variable name) -/
+def kLimit : Bytes := b!"$limit"
+def kIndex : Bytes := b!"$index"
 
 def pushForRange (s : Scope) (loopVar : Bytes) : (Bytes × Bytes) × Scope :=
   let n := s.n + 1
@@ -418,7 +419,7 @@ mutual
           | none => [.fixed b!"opt_data.", .ident key]
       visitAccess acc e0
     | .not _ a => do atOther; fx b!"!("; walkExpr a; fx b!")"
-    | .neg _ a => do atOther; fx b!"(-"; walkExpr a; fx b!")"
+    | .neg _ a => do atOther; fx b!"(- "; walkExpr a; fx b!")"
     | .bin op _ a b =>
       match op with
       | .elvis => do
@@ -644,28 +645,31 @@ mutual
           | .cons _ (.cons b .nil) => some b
           | .cons _ (.cons b (.cons _ .nil)) => some b
           | _ => none
+        -- the arguments of range() are not in the scope of the loop variable
+        let limitJs ← match limit with
+          | some l => block (walkExpr sk o l)
+          | none => fail                                -- s.block(nil): "unknown node"
+        let initJs ← block (walkExpr sk o init)
+        let incrJs ← block (walkExpr sk o incr)
         let sc ← getScope
         let ((varIndex, varLimit), sc') := sc.pushForRange v
         setScope sc'
-        indentP; fx b!"var "; emit (.ident varLimit); fx b!" = "
-        (match limit with
-          | some l => walkExpr sk o l
-          | none => fx b!"<nil>")                      -- %v of a nil interface
-        fx b!";"; nl
-        indentP; fx b!"for (var "; emit (.ident varIndex); fx b!" = "; walkExpr sk o init; fx b!"; "
+        indentP; fx b!"var "; emit (.ident varLimit); fx b!" = "; emits limitJs; fx b!";"; nl
+        indentP; fx b!"for (var "; emit (.ident varIndex); fx b!" = "; emits initJs; fx b!"; "
         emit (.ident varIndex); fx b!" < "; emit (.ident varLimit); fx b!"; "
-        emit (.ident varIndex); fx b!" += "; walkExpr sk o incr; fx b!") {"; nl
+        emit (.ident varIndex); fx b!" += "; emits incrJs; fx b!") {"; nl
         incIndent
         walkBody body
         decIndent
         indentP; fx b!"}"; nl
         popScope
       | none => do
-        -- visitForeach
+        -- visitForeach: only the loop body is in the scope of the loop variable
+        let listJs ← block (walkExpr sk o list)
         let sc ← getScope
         let ((itemData, itemList, itemListLen, itemIndex), sc') := sc.pushForEach v
         setScope sc'
-        indentP; fx b!"var "; emit (.ident itemList); fx b!" = "; walkExpr sk o list; fx b!";"; nl
+        indentP; fx b!"var "; emit (.ident itemList); fx b!" = "; emits listJs; fx b!";"; nl
         indentP; fx b!"var "; emit (.ident itemListLen); fx b!" = "; emit (.ident itemList); fx b!".length;"; nl
         whenM ifEmpty.isSome (do
           indentP; fx b!"if ("; emit (.ident itemListLen); fx b!" > 0) {"; nl
@@ -679,6 +683,7 @@ mutual
         walkBody body
         decIndent
         indentP; fx b!"}"; nl
+        popScope
         match ifEmpty with
         | some ie => do
           decIndent
@@ -688,7 +693,6 @@ mutual
           decIndent
           indentP; fx b!"}"; nl
         | none => pure ()
-        popScope
     | .switch _ value cases => do
       atOther
       indentP; fx b!"switch ("; walkExpr sk o value; fx b!") {"; nl
